@@ -99,6 +99,7 @@ structure DS where
   rs : List Res := []           -- results announced for the next region (C25)
   firstFault : Option String := none
   phantom : List Nat := []      -- header bytes of a block whose header write fails in this region (C25)
+  respec : Bool := false        -- the file was cut by hand: the next load defines the expected state
 
 def DS.mk' (s : DS) : Mk := fun es =>
   match s.tbl.find? (fun p => p.2.ents == es) with
@@ -295,10 +296,13 @@ def step (h : Hooks) (s0 : DS) (line : String) : DS × String :=
         (s1.push (compactVia s.cfg s.mk' s1.mdisk .fromIndex (parseOrder order) s.bs),
          if stale then some "load" else s1.staleEp)
     let s3 := { s2 with staleEp := stale }
-    (s3, pendingText s ++ "ok " ++ showIndex st ++ h.flagLoad s3 st)
+    if s.respec then ({ s3 with spec := st, respec := false }, pendingText s ++ "ok " ++ showIndex st)
+    else (s3, pendingText s ++ "ok " ++ showIndex st ++ h.flagLoad s3 st)
   | "plant" :: rest =>
     match parseLogOp s rest with
-    | some op => ({ (s.push [op]) with cursor := s.cursor + 1 }, "ok")
+    | some op =>
+      let cut := match op with | .truncate _ _ => true | _ => false
+      ({ (s.push [op]) with cursor := s.cursor + 1, respec := s.respec || cut }, "ok")
     | none => (s, "bad-op")
   | "log" :: rest =>
     match s.mops[s.cursor]? with
